@@ -441,10 +441,43 @@ func hostileWireCases(fuMiddles int) []wireCase {
 	return cases
 }
 
+// manyRefused: n frames the interleaved reader refuses (four kinds in rotation),
+// with a well-formed video packet after every `every` of them (0: none). The
+// statement sets no budget for damaged packets: the publisher's later good data
+// must convert however many were refused before, in a row or over the
+// connection's life (after seeded change C07-R5A: a skipped-frame budget that is
+// never reset by good media).
+func manyRefused(n, every int) []wireFrame {
+	valid := rtppack.Pkt{PT: 96, Marker: true, Seq: 1, TS: 90000, SSRC: 5, Payload: []byte{0x41, 0x9a, 0x00}}.Marshal()
+	kinds := []wireFrame{
+		wf(9, valid, "valid RTP packet on channel 9"),
+		wf(0, valid[:3], "3 bytes"),
+		wf(2, nil, "empty"),
+		wf(0, append([]byte{0x8f}, valid[1:]...), "CC=15"),
+	}
+	vts := uint32(90000 + probeStep)
+	var fr []wireFrame
+	for i := 0; i < n; i++ {
+		fr = append(fr, kinds[i%len(kinds)])
+		if every > 0 && i%every == every-1 {
+			fr = append(fr, wf(0, mediaPacket(96, true, uint16(100+i/every), vts, []byte{0x41, 0x9a, 0x02, 0x80, 0x80, 0x80, 0x80}), "good slice"))
+		}
+	}
+	return fr
+}
+
 // Frames the interleaved reader refuses: the session must survive them.
 func TestWireRefusedFrames(t *testing.T) {
 	for _, w := range refusedWireCases() {
 		judgeWire(t, "wire-refused", w.class, w.fr, true, w.rot)
+	}
+	many := [][2]int{{300, 0}, {1500, 7}, {5000, 1}}
+	if evid.Thorough() {
+		many = append(many, [2]int{70000, 0}, [2]int{70000, 3})
+	}
+	for _, m := range many {
+		class := fmt.Sprintf("%d refused frames on one connection, a good packet after every %d", m[0], m[1])
+		judgeWire(t, "wire-refused", class, manyRefused(m[0], m[1]), true, 0)
 	}
 }
 
